@@ -375,6 +375,16 @@ def stampG {α : Type} [Add α] [Sub α] [Mul α] [Div α] [LT α] [DecidableLT 
     (trunc : α → Int) (t : α) : Option TV.ObsTime.StampZ :=
   TV.ObsTime.readUnixG trunc t
 
+/-- the timestamps of a SPATIALLY resampled track as the Python builds them: the first output is `track.getFirstObs().copy()` and
+carries the first fix's own `ObsTime` `s0` (it is not re-read by `readUnixTime`); every other output is stamped
+`ObsTime.readUnixTime(T)` of its interpolated time. (In doubles the two differ for some stamps — `readUnixTime(toAbsTime())` of a
+stamp with ms = 53 may read 52 —, which the exact comparison of the calendar fields found; in exact arithmetic they are the same
+stamp: `TV.C05.spatial_first_stamp_carried`.) -/
+def spatialStampsG {α : Type} [Add α] [Sub α] [Mul α] [Div α] [LT α] [DecidableLT α] [IntCast α]
+    (trunc : α → Int) (s0 : TV.ObsTime.StampZ) : List (Fix α) → List (Option TV.ObsTime.StampZ)
+  | [] => []
+  | _ :: rest => some s0 :: rest.map (fun p => stampG trunc p.t)
+
 /-- the stamps of a resampled track -/
 def stamps {α : Type} (ms : α → Int) (out : List (Fix α)) : List (Option TV.ObsTime.Stamp) :=
   out.map (fun p => stampOf ms p.t)
